@@ -14,12 +14,18 @@ use std::io::BufWriter;
 use std::iter::FromIterator;
 use std::marker::PhantomData;
 use std::sync::atomic::{AtomicUsize, Ordering};
+#[cfg(not(fclones_verif_shuttle))]
 use std::sync::mpsc::{channel, Receiver, Sender};
+#[cfg(fclones_verif_shuttle)]
+use crate::verif_shim::mpsc::{channel, Receiver, Sender};
 use std::sync::Arc;
 
 use chrono::{DateTime, Local};
 use console::Term;
+#[cfg(not(fclones_verif_shuttle))]
 use crossbeam_utils::thread;
+#[cfg(fclones_verif_shuttle)]
+use crate::verif_shim::thread;
 use indexmap::IndexMap;
 use itertools::Itertools;
 use rayon::prelude::*;
